@@ -390,6 +390,9 @@ DRIVE = {
                              "which only matters when at least 2 shares are passed)")]),
     # ---- bign (level l = 128, standard curve; keys generated by the library itself)
     "bignParamsVal": D({"l": 128}, 0, hand=[("ok_params", "a.ok_params = 1", "ERR_ANY", "\\return ERR_OK iff the parameters are valid")], extra={"l": [192, 256]}),
+    "bignOidToDER": D({"query": 1, "cnt": 0}, 0, flags=["ok_oidstr"], extra={"query": [0, 1], "cnt": [0, 10, 11, 12]},
+                       hand=[("ok_oidstr", "a.ok_oidstr = 1", "ERR_BAD_OID", "the identifier string is valid (bign.h: otherwise ERR_BAD_OID)"),
+                             ("cnt", "a.query = 1 \\/ a.cnt >= 11", "ERR_OUTOFMEMORY", "der != 0: *count octets are reserved at der and suffice (11 for this identifier); the length query (der == 0) does not look at *count")]),
     "bignKeypairGen": D({"l": 128}, 1, flags=["ok_params", "ok_rng"], extra={"l": [192, 256]}),
     "bignKeypairVal": D({"l": 128}, 1, flags=["ok_params"], extra={"l": [192, 256]},
                         hand=[("ok_privkey", "a.ok_privkey = 1", "ERR_ANY", "\\return ERR_OK iff the pair is valid"),
